@@ -34,6 +34,14 @@ D2S = {
 }
 
 
+# unterminated fragments placed before X: only the suffix clause applies to them
+FRAGMENTS = {
+    "str-nokey": "@string{s", "str-val": "@string{s = ", "comment": "@comment{", "preamble": "@preamble{ p",
+    "quoted": "@a{k, t = \"", "braced": "@a{k, t = {", "nofield-eq": "@a{k, t", "nokey-comma": "@a{k", "open": "@a{",
+    "quote-brace": "@a{k, t = \"{", "after-field": "@a{k, t = 1", "string-brace": "@string{s = {",
+}
+
+
 def drv(text):
     return Splitter(text).split()
 
@@ -59,13 +67,13 @@ def native_blocks(text):
     return Splitter(text).split().blocks
 
 
-def replay(d1, x, d2):
+def replay(d1, x, d2, frag=False):
     text = d1 + x + "\n" + d2
     try:
         got = native_blocks(text)
     except Exception as e:  # noqa
         return {"input": text, "observed": f"raised {type(e).__name__}: {e}", "expected": "blocks"}
-    b1, b2 = native_blocks(d1), native_blocks(d2)
+    b1, b2 = ([] if frag else native_blocks(d1)), native_blocks(d2)
     g = [describe(b, False) for b in got]
     p = [describe(b, True) for b in b1]
     s = [describe(b, False) for b in b2]
@@ -73,7 +81,7 @@ def replay(d1, x, d2):
         return {"input": text, "observed": g, "expected": f"prefix {p}"}
     if len(got) < len(b1) + len(b2) or g[len(g) - len(b2):] != s:
         return {"input": text, "observed": g, "expected": f"suffix {s}"}
-    if x.strip() == "" and len(got) != len(b1) + len(b2):
+    if not frag and x.strip() == "" and len(got) != len(b1) + len(b2):
         return {"input": text, "observed": g, "expected": "concatenation law: nothing between the two documents"}
     return None
 
@@ -81,16 +89,17 @@ def replay(d1, x, d2):
 def task(n1, n2, L):
     eng = Engine()
     rec = Recorder(eng)
-    d1, d2 = D1S[n1], D2S[n2]
+    frag = n1.startswith("frag:")
+    d1, d2 = (FRAGMENTS[n1[5:]] if frag else D1S[n1]), D2S[n2]
     text, pos, holes = sym_text(eng, [("lit", d1), ("sym", L, SIGMA_S), ("lit", "\n" + d2)])
     (xa, xb), = holes
     xs = mk(chars(text)[xa:xb])
     E = eng.I.models.eq_simple
-    b1 = [describe(b, True) for b in native_blocks(d1)]
+    b1 = [] if frag else [describe(b, True) for b in native_blocks(d1)]
     b2 = [describe(b, False) for b in native_blocks(d2)]
     worlds = eng.run(drv, [text])
     for W in worlds:
-        rp = lambda m: replay(d1, eng.model_str(m, xs), d2)
+        rp = lambda m: replay(d1, eng.model_str(m, xs), d2, frag)
         if W.exc is not None:
             rec.require(W, True, "no-exception", rp)
             continue
@@ -101,7 +110,7 @@ def task(n1, n2, L):
         pre = E([describe(b, True) for b in got[:len(b1)]], b1)
         suf = E([describe(b, False) for b in got[len(got) - len(b2):]], b2)
         rec.require(W, b_not(b_and(pre, suf)), "prefix-and-suffix", rp)
-        if len(got) != len(b1) + len(b2):
+        if len(got) != len(b1) + len(b2) and not frag:
             blank = b_all(is_space(c) for c in chars(xs))
             rec.require(W, blank, "concatenation-law", rp)
             rec.witness("garbage-produced-middle-blocks", W)
@@ -127,6 +136,12 @@ def main():
         for n1 in D1S:
             for n2 in D2S:
                 chk.add_task(f"{n1}+X{L}+{n2}", task, n1=n1, n2=n2, L=L)
+    LF = 2 if chk.tier == "quick" else 4
+    chk.bounds["unterminated fragments before X"] = f"{sorted(FRAGMENTS)} with X of length 0..{LF} (suffix clause only)"
+    for L in range(LF, -1, -1):
+        for fr in FRAGMENTS:
+            for n2 in D2S:
+                chk.add_task(f"frag-{fr}+X{L}+{n2}", task, n1="frag:" + fr, n2=n2, L=L)
     chk.run()
 
 
